@@ -42,8 +42,8 @@ def convSeg (typn typu : String) (s : Seg) : Option Conv :=
     | "uint8" => some (match s.pu with | some u => .ok (.uint (wrapU 8 u)) | none => .err)
     | "uint16" => some (match s.pu with | some u => .ok (.uint (wrapU 16 u)) | none => .err)
     | "uint32" => some (match s.pu with | some u => .ok (.uint (wrapU 32 u)) | none => .err)
-    | "float32" | "float64" =>
-        some (match s.pf with | .ok fx => .ok (.float fx) | .inexact => .opaque | .err => .err)
+    | "float32" => some (match s.pf with | .ok fx => .ok (.float (roundF32 fx)) | .inexact => .opaque | .err => .err)
+    | "float64" => some (match s.pf with | .ok fx => .ok (.float fx) | .inexact => .opaque | .err => .err)
     | "string" => some (.ok (.str s.text))
     | "[]byte" => some (.ok (.bytes false s.text s.text.length))
     | "byte" => some (match s.text with | b :: _ => .ok (.uint b.toNat) | [] => .ok (.uint 0))
